@@ -271,6 +271,20 @@ func checkC10(p *Program, r *Report) {
 
 	checkTailConsistent(p, r)
 	checkBitSlice(p, r, "C10.bitslice")
+	{
+		var fs []*ssa.Function
+		var roots []*ssa.Function
+		for _, n := range []string{"Get", "GetID", "RangeGet", "Search"} {
+			if m := p.Method(p.Trie, "SlimTrie", n); m != nil {
+				roots = append(roots, m)
+			}
+		}
+		for f := range trieReach(roots...) {
+			fs = append(fs, f)
+		}
+		sort.Slice(fs, func(i, j int) bool { return fs[i].String() < fs[j].String() })
+		checkRankEnd(p, r, "C10.rank-end", fs)
+	}
 
 	// ---- keys are bytes: no lookup or scan walks key material by runes
 	checkNoRuneWalk(p, r, "C10.bytes-not-runes", p.Method(p.Trie, "SlimTrie", "Get"), p.Method(p.Trie, "SlimTrie", "GetID"), p.Method(p.Trie, "SlimTrie", "RangeGet"),
